@@ -482,20 +482,20 @@ type LoopSpec struct {
 }
 
 type FuncSpec struct {
-	Key          string // "pkgpath|(*T).name$k"
-	PkgPath      string
-	Name         string
-	Requires     []*Clause
-	Ensures      []*Clause
-	Modifies     []string // heap keys or "*" ; nil = default
-	ModSet       bool
-	Loops        map[int]*LoopSpec
-	Flags        map[string]string // pure, nonblocking, trusted, assumed, checknil ...
-	Uses         []string          // lemma names
-	UsesAt       []*LemmaUse
-	ClosureInv   []*Clause // function literals: invariant over captured variables, established where the literal is created,
+	Key        string // "pkgpath|(*T).name$k"
+	PkgPath    string
+	Name       string
+	Requires   []*Clause
+	Ensures    []*Clause
+	Modifies   []string // heap keys or "*" ; nil = default
+	ModSet     bool
+	Loops      map[int]*LoopSpec
+	Flags      map[string]string // pure, nonblocking, trusted, assumed, checknil ...
+	Uses       []string          // lemma names
+	UsesAt     []*LemmaUse
+	ClosureInv []*Clause // function literals: invariant over captured variables, established where the literal is created,
 	// assumed at every call of it and re-established at every return
-	Props        []string          // property ids this function serves
+	Props        []string // property ids this function serves
 	File         string
 	Line         int
 	Assumed      bool   // contract is assumed, body not verified (deps or explicitly "assumed")
